@@ -33,7 +33,8 @@ CONSTANTS Rotations,      \* set of rotation offsets into AllKinds
           Namings,        \* subset of {"plain", "nons", "kw", "host", "svchost"}
           NSvcs,          \* subset of 1..2
           ReqPkgs,        \* subset of {"own", "dep"}: the request type lives in the API's package / a dependency
-          Flattens,       \* subset of BOOLEAN: method_signature "filter" on the non-client-streaming RPCs
+          Flattens,       \* subset of BOOLEAN: method_signature "filter,detail.title" (a top-level field and a DOTTED path
+                          \* into a nested message; the client parameter is the LEAF name) on the non-client-streaming RPCs
           FormSet,        \* calling forms present
           MaxCode,        \* bound of the sample-file grammar (code lines per section)
           AnyOrder,       \* TRUE: sample specs may be generated in any order
@@ -74,11 +75,13 @@ Snake(r) == CASE r = "unary" -> "get_book" [] r = "paged" -> "list_books" [] r =
 \* required-field kinds of a request (rotation order): each scalar, enums, nested messages with / without a
 \* required sub-field / from another package, oneofs whose first member is a scalar / a message with / without a
 \* required sub-field, resource-reference string, repeated scalar / enum / message, map, two required message fields of
-\* the SAME type (msg_twin: _a, _b), a required message field (_m) plus a first-of-oneof member (_a) of that same type
+\* the SAME type (msg_twin: _a, _b), a required message field (_m) plus a first-of-oneof member (_a) of that same type,
+\* a required message whose required message `mid` has the required scalar leaf `since` (a chain of three attributes;
+\* msg_chain: the leaf name is unique, msg_chain_same: the outer message has an optional field of the same name)
 AllKinds == <<"string", "int32", "enum", "msg", "oneof_scalar", "resref", "rep_string", "bool",
               "int64", "uint32", "uint64", "sint32", "sint64", "fixed32", "fixed64", "sfixed32", "sfixed64",
               "float", "double", "bytes", "oneof_msg", "rep_enum", "msg_plain", "oneof_plain", "rep_msg", "map", "msg_dep",
-              "msg_twin", "msg_oneof_same">>
+              "msg_twin", "msg_oneof_same", "msg_chain", "msg_chain_same">>
 KindAt(i) == AllKinds[((i - 1) % Len(AllKinds)) + 1]
 KindsOf(a, r) == {KindAt(RpcIdx(r) + a.rot + w) : w \in 0..(a.width - 1)}
 
@@ -101,7 +104,7 @@ SpecRec(a, s, r, k) == [svc |-> s, rpc |-> r, kind |-> k, transport |-> Transpor
 \* metadata names ------------------------------------------------------------
 ClientName(s, k) == s \o (IF k = "async" THEN "AsyncClient" ELSE "Client")
 Params(a, r) == IF FormOf(r) \in {"cstream", "bidi"} THEN <<"requests", "retry", "timeout", "metadata">>
-                ELSE <<"request">> \o (IF a.flatten THEN <<"filter">> ELSE <<>>) \o <<"retry", "timeout", "metadata">>
+                ELSE <<"request">> \o (IF a.flatten THEN <<"filter", "title">> ELSE <<>>) \o <<"retry", "timeout", "metadata">>
 ResultShape(f) == CASE f = "void" -> "none" [] f \in {"sstream", "bidi"} -> "iterable" [] OTHER -> "plain"
 
 \* required-field kinds ------------------------------------------------------
@@ -118,16 +121,21 @@ SubRequired(k) == CASE k \in WithSub -> {<<F(k), F(k) \o ".x">>}
                     [] k = "oneof_msg" -> {<<F(k) \o "_a", F(k) \o "_a.x">>}
                     [] k = "oneof_scalar" -> {<<F(k) \o "_b", F(k) \o "_b.x">>}
                     [] k = "msg_twin" -> {<<F(k) \o "_a", F(k) \o "_a.x">>, <<F(k) \o "_b", F(k) \o "_b.x">>}
+                    [] k \in {"msg_chain", "msg_chain_same"} -> {<<F(k), F(k) \o ".mid">>, <<F(k) \o ".mid", F(k) \o ".mid.since">>}
                     [] k = "msg_oneof_same" -> {<<F(k) \o "_m", F(k) \o "_m.x">>, <<F(k) \o "_a", F(k) \o "_a.x">>}
                     [] OTHER -> {}
 OneofMembers(k) == IF k \in OneofKinds \cup {"msg_oneof_same"} THEN {F(k) \o "_a", F(k) \o "_b"} ELSE {}
 
 \* the request a sample has to build: every required field (recursively) and one member of each oneof
-Populate(k) == TopRequired(k) \cup {p[2] : p \in {q \in SubRequired(k) : q[1] \in TopRequired(k)}}
+Below(S, k) == S \cup {p[2] : p \in {q \in SubRequired(k) : q[1] \in S}}          \* one level of required sub-fields
+Populate(k) == Below(Below(TopRequired(k), k), k)
                \cup (IF OneofMembers(k) # {} THEN {F(k) \o "_a"} \cup {p[2] : p \in {q \in SubRequired(k) : q[1] = F(k) \o "_a"}} ELSE {})
 BuildRequest(ks) == UNION {CASE Mutant = "skip_nested" /\ k \in WithSub -> {}
                              [] Mutant = "skip_oneof" /\ k \in OneofKinds -> {}
                              [] Mutant = "both_oneof_members" /\ k \in OneofKinds -> OneofMembers(k)
+                             \* a leaf two levels down is assigned on the top-level nested message: the required
+                             \* message in between is never built
+                             [] Mutant = "last_attr_only" /\ k \in {"msg_chain", "msg_chain_same"} -> {F(k)}
                              \* a recursion guard shared by sibling fields: a message type is expanded only once
                              [] Mutant = "shared_visited" /\ k \in {"msg_twin", "msg_oneof_same"} -> {F(k) \o "_a", F(k) \o "_a.x"}
                              [] OTHER -> Populate(k) : k \in ks}
